@@ -65,6 +65,8 @@ def rust_ty(t, lt, in_struct=False):
         return "impl Fn(%s)%s" % (", ".join(rust_ty(a, lt) for a in t["ps"]), ret)
     if k == "trait":
         return "impl " + t["n"]
+    if k == "strs":
+        return "&[%s]" % STR_DIPL[t["enc"]]
     raise ValueError(k)
 
 
